@@ -1,3 +1,119 @@
 import PeptVerif.Model.Reorder
+/-! Helper lemmas for Props/C11 and Props/C07 (no Mathlib needed). -/
 namespace Pept.Reorder
+
+/-! ### dictionaries -/
+
+/-- look-up through a re-keyed dictionary: if among the keys of `d` exactly `k` is sent to `j` -/
+theorem dictGet?_map_key (f : Int → Int) (d : Dict) (j k : Int)
+    (h : ∀ p ∈ d, f p.1 = j ↔ p.1 = k) :
+    dictGet? (d.map fun p => (f p.1, p.2)) j = dictGet? d k := by
+  induction d with
+  | nil => rfl
+  | cons p t ih =>
+    have hp := h p (by simp)
+    have ht : ∀ q ∈ t, f q.1 = j ↔ q.1 = k := fun q hq => h q (by simp [hq])
+    simp only [List.map_cons, dictGet?]
+    by_cases hk : p.1 = k
+    · have hfj : f p.1 = j := hp.2 hk
+      rw [if_pos hfj, if_pos hk]
+    · have : ¬ f p.1 = j := fun hh => hk (hp.1 hh)
+      rw [if_neg this, if_neg hk, ih ht]
+
+theorem dictGet?_filterMap_slice (s e : Int) (d : Dict) (j : Int) (h1 : s ≤ j + s) (h2 : j + s < e) :
+    dictGet? (d.filterMap (sliceEntry s e)) j = dictGet? d (j + s) := by
+  induction d with
+  | nil => rfl
+  | cons p t ih =>
+    simp only [List.filterMap_cons, sliceEntry]
+    by_cases hr : s ≤ p.1 ∧ p.1 < e
+    · simp only [hr, and_self, if_true, dictGet?]
+      by_cases hk : p.1 = j + s
+      · have : p.1 - s = j := by omega
+        simp [hk]
+      · have : ¬ p.1 - s = j := by omega
+        simp [hk, this, ih]
+    · have hk : ¬ p.1 = j + s := by omega
+      simp [hr, dictGet?, hk, ih]
+
+theorem dictSet_append_of_not_mem (acc : Dict) (k : Int) (v : List Mod) (h : ∀ p ∈ acc, p.1 ≠ k) :
+    dictSet acc k v = acc ++ [(k, v)] := by
+  induction acc with
+  | nil => rfl
+  | cons p t ih =>
+    have hp : p.1 ≠ k := h p (by simp)
+    simp [dictSet, hp, ih (fun q hq => h q (by simp [hq]))]
+
+theorem foldl_dictSet_of_nodup (l : List (Int × List Mod)) (acc : Dict)
+    (hn : (l.map (·.1)).Nodup) (hd : ∀ p ∈ acc, ∀ q ∈ l, p.1 ≠ q.1) :
+    l.foldl (fun d p => dictSet d p.1 p.2) acc = acc ++ l := by
+  induction l generalizing acc with
+  | nil => simp
+  | cons q t ih =>
+    simp only [List.foldl_cons]
+    rw [dictSet_append_of_not_mem acc q.1 q.2 (fun p hp => hd p hp q (by simp))]
+    simp only [List.map_cons, List.nodup_cons] at hn
+    rw [ih _ hn.2]
+    · simp
+    · intro p hp r hr
+      simp only [List.mem_append, List.mem_singleton] at hp
+      rcases hp with hp | hp
+      · exact hd p hp r (by simp [hr])
+      · subst hp
+        intro heq
+        exact hn.1 (by rw [heq]; exact List.mem_map_of_mem hr)
+
+/-- a dict built from pairs with distinct keys is the list of pairs -/
+theorem buildDict_of_nodup (l : List (Int × List Mod)) (hn : (l.map (·.1)).Nodup) : buildDict l = l := by
+  unfold buildDict
+  rw [foldl_dictSet_of_nodup l [] hn (by simp)]
+  simp
+
+/-! ### residues -/
+
+theorem residues_getElem? (a : Annotation) (i : Nat) :
+    (residues a)[i]? = a.seq[i]?.map fun c => (c, modsAt a i) := by
+  unfold residues
+  rw [List.getElem?_map, List.getElem?_zipIdx]
+  cases a.seq[i]? <;> simp
+
+theorem residues_length (a : Annotation) : (residues a).length = a.seq.length := by
+  simp [residues]
+
+theorem pyIndex_nat (n i : Nat) : pyIndex n (i : Int) = min i n := by
+  unfold pyIndex
+  have : ¬ ((i : Int) < 0) := by omega
+  simp [this]
+
+theorem pySlice_nat {α} (l : List α) (s e : Nat) : pySlice l (s : Int) (e : Int) = (l.drop (min s l.length)).take (min e l.length - min s l.length) := by
+  simp [pySlice, pyIndex_nat]
+
+
+theorem hasMods_false_iff (a : Annotation) : hasMods a = false ↔
+    a.isotope = none ∧ a.static = none ∧ a.labile = none ∧ a.unknown = none ∧ a.nterm = none ∧ a.cterm = none ∧
+    a.internal = none ∧ a.intervals = none ∧ a.charge = none ∧ a.adducts = none := by
+  simp [hasMods, and_assoc]
+
+theorem slice_seq (a : Annotation) (s e : Int) : (slice a s e).seq = pySlice a.seq s e := by
+  unfold slice; split <;> rfl
+
+theorem slice_internal_of_hasMods (a : Annotation) (s e : Int) (h : hasMods a = true) :
+    (slice a s e).internal = a.internal.map (·.filterMap (sliceEntry s e)) := by
+  simp [slice, h]
+
+theorem modsAt_slice (a : Annotation) (s e i : Nat) (hi : s + i < e) :
+    modsAt (slice a s e) i = modsAt a (s + i) := by
+  cases hm : hasMods a
+  · have hint : a.internal = none := ((hasMods_false_iff a).1 hm).2.2.2.2.2.2.1
+    simp [modsAt, slice, hm, plain, hint]
+  · unfold modsAt
+    rw [slice_internal_of_hasMods a s e hm]
+    cases hd : a.internal with
+    | none => rfl
+    | some d =>
+      simp only [Option.map_some]
+      rw [dictGet?_filterMap_slice (s : Int) (e : Int) d (i : Int) (by omega) (by omega)]
+      congr 2
+      omega
+
 end Pept.Reorder
